@@ -13,8 +13,8 @@ from ..harness import Violation
 
 ID = "C13"
 LEVEL = "exploration"
-RULE = ("Complete enumeration of all histories up to length 3 (quick) / 4 (thorough; plus Hypothesis-sampled histories of length 5..30) over the 19-letter alphabet "
-        "{connect-ok, connect-fail in {transport refuses, AUTH without keys, invalid challenge, silent device}, close, exec_out, root, shell, streaming_shell, reboot, list, stat, pull, push, "
+RULE = ("Complete enumeration of all histories up to length 3 (quick) / 4 (thorough; plus Hypothesis-sampled histories of length 5..30) over the 20-letter alphabet "
+        "{connect-ok, connect-fail in {transport refuses, AUTH without keys, invalid challenge, silent device}, close, close whose transport.close() raises, exec_out, root, shell, streaming_shell, reboot, list, stat, pull, push, "
         "and list/stat/pull/push with an empty device path}, for AdbDevice and AdbDeviceAsync. Oracle = two-state model: `available` equals the model after every step and is False when observed "
         "from inside transport.connect() of a running attempt; a disconnected operation raises AdbConnectionError (DevicePathInvalidError for an empty path; either when both apply) without a single "
         "transport write and without creating the pull destination; a connected operation is served by the simulator, returns the model's value and never raises AdbConnectionError. "
@@ -40,7 +40,7 @@ OPS = {
     "push-empty": {"op": "push", "src": {"kind": "bytesio", "content": b"data"}, "path": "", "mtime": 5},
 }
 CONNECTS = ["connect-ok", "connect-refused", "connect-nokeys", "connect-badchallenge", "connect-silent"]
-ALPHABET = CONNECTS + ["close"] + sorted(OPS)
+ALPHABET = CONNECTS + ["close", "close-fails"] + sorted(OPS)
 
 
 def apply_connect_plan(out, letter):
@@ -78,8 +78,10 @@ def run_history(hist, api):
         if letter in CONNECTS:
             # a (re)connect makes adbd challenge from scratch: the bad-challenge index refers to the first challenge of the attempt
             op = apply_connect_plan(out, letter)
-        elif letter == "close":
+        elif letter in ("close", "close-fails"):
             op = {"op": "close"}
+            if letter == "close-fails" and out.core.connected:
+                out.core.cfg["close_raises_once"] = True      # the transport's own close() raises (once)
         else:
             op = dict(OPS[letter])
         return op, w0
@@ -98,9 +100,9 @@ def run_history(hist, api):
                 names = want if isinstance(want, tuple) else (want,)
                 if res.get("exc") not in names:
                     return Violation("connect-fail-wrong-outcome", "step %d %s: expected %s, got %r" % (i, letter, names, res))
-        elif letter == "close":
+        elif letter in ("close", "close-fails"):
             model = False
-            if "exc" in res:
+            if "exc" in res and not (letter == "close-fails" and res["exc"] == "OSError"):
                 return Violation("close-raised", "step %d: %r" % (i, res))
         else:
             empty = letter.endswith("-empty")
@@ -172,7 +174,7 @@ def run_history(hist, api):
 def nontrivial(hist):
     seen_fail_or_close = False
     for l in hist:
-        if l in CONNECTS[1:] or l == "close":
+        if l in CONNECTS[1:] or l in ("close", "close-fails"):
             seen_fail_or_close = True
         elif l not in CONNECTS and seen_fail_or_close:
             return True
